@@ -19,11 +19,12 @@ package gtreap
 //@   requires t != nil && typeis(target, *Item) && target.(*Item) != nil
 //@   ensures implies(tget(t, target.(*Item).k) == nil, result == nil) && implies(tget(t, target.(*Item).k) != nil, typeis(result, *Item) && result.(*Item) == tget(t, target.(*Item).k))
 //@ assume func gtreap.Treap.Upsert(t, item, itemPriority)
-//@   requires t != nil
-//@   ensures result != nil
+//@   requires t != nil && typeis(item, *Item) && item.(*Item) != nil
+//@   ensures result != nil && tget(result, item.(*Item).k) == item.(*Item)
 //@ assume func gtreap.Treap.Delete(t, target)
-//@   requires t != nil
-//@   ensures result != nil
+//@   requires t != nil && typeis(target, *Item) && target.(*Item) != nil
+//@   ensures result != nil && tget(result, target.(*Item).k) == nil
+//@ spec opDone(t *gtreap.Treap, o *store.op) bool = implies(o.V != nil, tget(t, o.K) != nil && tget(t, o.K).v == o.V) && implies(o.V == nil, tget(t, o.K) == nil)
 //@ assume func rand.Int()
 //@ assume func store.MergeOperator.FullMerge(mo, key, existingValue, operands)
 //@   requires mo != nil
@@ -40,8 +41,11 @@ package gtreap
 //@   ensures !held(w.s.m)
 //@   ensures implies(result != nil, w.s.t == old(w.s.t))
 //@   ensures w.s.t != nil
+// the last operation of the batch decides its key: a set (value not nil, possibly EMPTY) leaves an
+// item with exactly that value, a delete (nil value) leaves none
+//@   ensures implies(result == nil && len(batch.(*store.EmulatedBatch).Ops) > 0, opDone(w.s.t, batch.(*store.EmulatedBatch).Ops[len(batch.(*store.EmulatedBatch).Ops)-1]))
 //@   loop 0: invariant w.s != nil && held(w.s.m) && w.s.mo != nil && t != nil && w.s == old(w.s) && w.s.t == old(w.s.t)
-//@   loop 1: invariant w.s != nil && held(w.s.m) && w.s.mo != nil && t != nil && w.s == old(w.s) && w.s.t == old(w.s.t)
+//@   loop 1: invariant w.s != nil && held(w.s.m) && w.s.mo != nil && t != nil && w.s == old(w.s) && w.s.t == old(w.s.t) && implies(iter > 0, opDone(t, emulatedBatch.Ops[iter-1]))
 
 // Reader: a snapshot of the treap taken under the lock.
 //@ func Store.Reader
